@@ -410,6 +410,13 @@ func ffOp(op, pat string, args []string, a *argTrack) string {
 // raw limb-level ops: operands are Montgomery limbs as given (canonical unless the generator says otherwise)
 func ffRawOp(op, pat string, args []string, a *argTrack) string {
 	lim := func(i int) ff.Element { return ffLimbs(args[i]) }
+	// "api:<backend>" / "zx:<backend>": the back-end name is information for the Lean side only
+	if i := strings.IndexByte(pat, ':'); i >= 0 {
+		pat = pat[:i]
+	}
+	if pat == "api" {
+		pat = ""
+	}
 	switch op {
 	case "mul":
 		need(args, 2)
